@@ -45,6 +45,9 @@ def gen_program(rng: random.Random, *, futures: bool = False, hooks: bool = Fals
         prog = _gen_program_once(rng, futures=futures, hooks=hooks, max_pre=max_pre)
         try:
             ref = run_reference(prog, max_deliveries=3000)
+            if prog.get("end_ns") is not None:
+                # the engine delivers one event beyond end_time: the program must be valid then too
+                run_reference(prog, max_deliveries=3000, exact_overshoot=True)
         except InvalidProgram:
             continue
         except RuntimeError:
